@@ -256,6 +256,21 @@ pub fn generate(s: &mut Session, thorough: bool) -> bool {
         add(s, "length", &b);
         add(s, "length", &vec![0u8; len]);
     }
+    // (vi-b) lengths that equal 80 modulo a power of two (a length compared after a narrowing cast:
+    // seed C06-8 accepted 80 + 65536 bytes), valid packet first, zeros or a second packet behind
+    for extra in [256usize, 512, 1024, 4096, 65536, 2 * 65536, 65536 + 256, (1 << 20)] {
+        for fill in [0u8, 0xFF] {
+            let mut b = valids[extra % valids.len()].clone();
+            b.resize(80 + extra, fill);
+            add(s, "length-wrap", &b);
+        }
+        let mut b = valids[0].clone();
+        while b.len() < 80 + extra {
+            b.extend_from_slice(&valids[1]);
+        }
+        b.truncate(80 + extra);
+        add(s, "length-wrap", &b);
+    }
     // (vii) malformed stream: random bytes, with and without plausible marks
     for _ in 0..300 * scale {
         let mut b = rng.bytes(80);
